@@ -19,7 +19,13 @@ func runC20(c *Check, rng *rand.Rand) {
 	}
 	for _, r := range rs {
 		masters := 3
-		env, err := NewEnv(EnvOpt{Masters: masters, Replicas: r})
+		// lines in a random order: like a real node (dictionary order of ids),
+		// replicas routinely come before their masters
+		env, err := NewEnv(EnvOpt{Masters: masters, Replicas: r, Topo: func(cl *Cluster) *Topo {
+			t := EvenTopo(cl, masters, r)
+			t.Order = rng.Perm(len(t.Nodes))
+			return t
+		}})
 		must(err, "start env")
 		env.Cl.SetHandler(func(b *BReq) Action { return Action{Reply: ValueReply(b)} })
 		for phase := 0; phase < 2; phase++ {
@@ -42,12 +48,32 @@ func runC20(c *Check, rng *rand.Rand) {
 				n := 300 * r
 				reads := []string{"get", "hgetall", "llen", "smembers", "zcard", "strlen", "exists", "ttl", "type", "hget", "lrange", "zscore"}
 				sent := 0
+				// request pattern: strictly periodic (k reads then one write, k = 1..5)
+				// or irregular; a pick that depends on the position of a read in the
+				// request stream starves a replica under some period
+				// masters alternate between an irregular mix and the strict period
+				// "healthy-1 reads, one write" (the period that starves one replica of a
+				// pick that is a function of the request counter)
+				healthyN := r
+				if phase == 1 && m == 0 {
+					healthyN = r - 1
+				}
+				period := 0
+				if (m+phase)%2 == 0 && healthyN >= 2 {
+					period = healthyN - 1
+				} else if m == 2 {
+					period = 1 + rng.Intn(5)
+				}
 				for i := 0; i < n; i++ {
 					slot := mt.Slots[0][0] + rng.Intn(mt.Slots[0][1]-mt.Slots[0][0]+1)
 					key := []byte(Key(slot, newToken("rd")))
 					cl.Send(EncodeReq(genCommand(rng, reads[rng.Intn(len(reads))], key, 0)...))
 					sent++
-					if i%5 == 0 {
+					wr := i%5 == 0
+					if period >= 1 && period <= 5 {
+						wr = i%period == period-1
+					}
+					if wr {
 						cl.Send(Req("SET", Key(slot, newToken("wr")), "v"))
 						sent++
 					}
@@ -71,7 +97,7 @@ func runC20(c *Check, rng *rand.Rand) {
 				}
 				scen := fmt.Sprintf("r=%d/phase=%d", r, phase)
 				c.Eval(1)
-				c.Distinct(fmt.Sprintf("%s/master=%d", scen, m))
+				c.Distinct(fmt.Sprintf("%s/master=%d/period=%d", scen, m, period))
 				dist := map[string]int{}
 				starved := 0
 				healthy := 0
@@ -86,7 +112,7 @@ func runC20(c *Check, rng *rand.Rand) {
 					}
 				}
 				dist["master:"+mt.Addr] = perNode[mt.Node]
-				wit := map[string]interface{}{"replicas": r, "reads_sent": n, "reads_per_node": dist, "unhealthy_replica": addrOf(downNode)}
+				wit := map[string]interface{}{"replicas": r, "reads_sent": n, "reads_per_write_period(0,6=irregular)": period, "cluster_nodes_line_order": env.T.Order, "reads_per_node": dist, "unhealthy_replica": addrOf(downNode)}
 				if starved > 0 {
 					shape := "all-healthy"
 					if phase == 1 && m == 0 {
